@@ -59,6 +59,14 @@ def prependWith (b : SBuf) (n : Nat) (f : Bytes → Res Bytes) : Res SBuf :=
     the length consumed. -/
 def tlvSerializeTo (o : Tlv) (buf : Option Bytes) (off : Nat) (fix : Bool) :
     Res (Tlv × Option Bytes × Nat) :=
+  if o.typ = 0 then
+    -- Pad1: a single zero byte, no length, no data (OptionLength is left alone)
+    match buf with
+    | none => .ok (o, none, 1)
+    | some bf => do
+      let bf ← wr bf off 0
+      pure (o, some bf, 1)
+  else
   let o' : Tlv := if fix then { o with len := o.bytes.length % 256 } else o
   let length := o'.len + 2
   match buf with
@@ -127,7 +135,7 @@ def tlvOptsLoop (fix : Bool) : List Tlv → Option Bytes → Nat → Res (List T
     pure (o' :: os', buf, length)
 
 /-- The final pad computed by the code. -/
-def finalPad (length : Nat) : Nat := length % 8
+def finalPad (length : Nat) : Nat := (8 - length % 8) % 8
 
 def serializeTlvOptions (buf : Option Bytes) (opts : List Tlv) (fix : Bool) :
     Res (List Tlv × Option Bytes × Nat) := do
@@ -160,12 +168,10 @@ def serializeTlvExt (e : TlvExt) (b : SBuf) (fix : Bool) : Res (SBuf × TlvExt) 
 
 /-! ## SetJumboLength / addIPv6JumboOption -/
 
-/-- (*IPv6HopByHopOption).SetJumboLength(len): `binary.BigEndian.PutUint32(o.OptionData, len)`
-    panics when a non-nil OptionData is shorter than 4. -/
+/-- (*IPv6HopByHopOption).SetJumboLength(length): `if len(o.OptionData) != 4 { o.OptionData =
+    make([]byte, 4) }; binary.BigEndian.PutUint32(o.OptionData, length)`. -/
 def setJumboLength (o : Tlv) (n : Nat) : Res Tlv :=
-  let data : Bytes := match o.data with
-    | none => [0, 0, 0, 0]
-    | some d => d
+  let data : Bytes := if o.bytes.length ≠ 4 then [0, 0, 0, 0] else o.bytes
   if data.length < 4 then .panic .index
   else
     .ok { typ := hopByHopOptionJumbogram, len := 4, alen := 6,
@@ -222,7 +228,7 @@ def setPayloadJumboLength (hbh : Bytes) : Res Bytes :=
   if pLen < 8 then .err "Invalid IPv6 payload"
   else do
     let h1 ← index hbh 1
-    let hbhLen := ((h1.toNat + 1) % 256 * 8) % 256       -- int((hbh[1] + 1) * 8): uint8 arithmetic
+    let hbhLen := (h1.toNat + 1) * 8       -- (int(hbh[1]) + 1) * 8
     if hbhLen > pLen then .err "Invalid hop-by-hop length"
     else jumboScan hbh hbhLen hbhLen 2
 
